@@ -346,7 +346,26 @@ def _worker(chunk):
         try:
             out.extend(check_nameset(W, S, fns))
         except Undecided as e:
-            out.append(("__undecided__", ",".join(S), str(e), None))
+            if "condition depends on an opaque value" not in str(e):
+                out.append(("__undecided__", ",".join(S), str(e), None))
+            else:
+                # a branch on the truth value of a coordinate: decide under both assumptions; the outcome must not depend on it
+                res = []
+                for pol in (True, False):
+                    Interp.OPAQUE_TRUTH = pol
+                    try:
+                        res.append(sorted(map(repr, check_nameset(W, S, fns))))
+                    except Undecided as e2:
+                        res.append(["__undecided__:" + str(e2)])
+                    finally:
+                        Interp.OPAQUE_TRUTH = None
+                if any(r and r[0].startswith("__undecided__") for r in res):
+                    out.append(("__undecided__", ",".join(S), str(e), None))
+                else:
+                    key = ",".join(S) or "(none)"
+                    out.append(("C06.value-independence", f"name set {{{key}}}",
+                                f"acceptance or storage depends on the truth value of a coordinate ({str(e)[:120]}): with non-zero values the checks report "
+                                f"{len(res[0])} problem(s), with zero values {len(res[1])}", {"nonzero": res[0][:3], "zero": res[1][:3]}))
         n += 1
     return n, out
 
@@ -361,6 +380,7 @@ def run(ctx):
     ctx.rule("C06.numpy-array", "vector.array picks (Momentum|Vector)Numpy{2,3,4}D by the documented rule and the class's __array_finalize__ derives coordinate types from a complete coordinate set or raises")
     ctx.rule("C06.agree", "a name set accepted by vector.obj is accepted with the same dimension and flavor by vector.zip/Array and vector.array")
     ctx.rule("C06.value-types", "bool and non-numeric values are rejected with TypeError by obj and by all six object classes")
+    ctx.rule("C06.value-independence", "no constructor branches on the truth value of a coordinate (a zero must be handled like any other number): decided by interpreting under both assumptions when such a branch is met")
     ctx.rule("C06.record-name", "Array/zip name the record _recname(is_momentum, dimension) from _check_names' own result and zip names with columns in order")
 
     _columns_rule(ctx, W)
@@ -397,7 +417,7 @@ def run(ctx):
     if und:
         raise AnalysisError(f"interpreter could not decide {len(und)} name sets, e.g. {und[0][1]}: {und[0][2]}")
     ctx.anchor("name sets enumerated", total, len(sets))
-    per_rule_total = {"C06.obj": total, "C06.class": total * 6, "C06.check-names": total, "C06.numpy-array": total - 1, "C06.agree": total}
+    per_rule_total = {"C06.obj": total, "C06.class": total * 6, "C06.check-names": total, "C06.numpy-array": total - 1, "C06.agree": total, "C06.value-independence": total}
     bad = {}
     for rule, construct, msg, wit in findings:
         bad.setdefault(rule, []).append((construct, msg, wit))
